@@ -76,9 +76,13 @@ Theorem C18_mirror_total_size :
 Proof.
   destruct C18_mirror_exact_partial as [devs [Hd Hk]].
   intros cl pl Hcl Hpl c sn s lc lp Hc Ha Hs Hlc Hlp Hpre.
-  apply (mirror_total_gen tables0 c_structs py_classes known_deviations devs Hd Hk cl pl Hcl Hpl c sn s lc lp); auto.
-  intros k Hk'. right. unfold known_deviations in Hk'. cbn in Hk'.
-  repeat (destruct Hk' as [Hk'|Hk']; [subst k; split; discriminate|]). destruct Hk'.
+  apply (mirror_total_gen tables0 c_structs py_classes known_deviations devs Hd Hk cl pl Hcl Hpl c sn s lc lp); try assumption.
+  (* no listed deviation is a total-size / missing-member deviation (checked by computation, for whatever the list is) *)
+  intros k Hk'.
+  assert (H : forallb (fun k : dev => negb (String.eqb (snd k) "total-size") && negb (String.eqb (snd k) "missing-in-python"))
+                      known_deviations = true) by (vm_compute; reflexivity).
+  rewrite forallb_forall in H. specialize (H k Hk'). apply andb_prop in H. destruct H as [H1 H2].
+  right. split; intros E; rewrite E in *; discriminate.
 Qed.
 Print Assumptions C18_mirror_total_size.
 
